@@ -53,7 +53,9 @@ def validate_one(ctx, trace, idx, module='Trace', cfg=None):
     outp = trace + '.tlc.out'
     md = trace + '.md'
     env = dict(os.environ)
-    env['JAVA_TOOL_OPTIONS'] = (env.get('JAVA_TOOL_OPTIONS', '') + ' -Xss512m -Xmx3g').strip()
+    jtmp = os.path.join(ctx.work, 'jtmp')
+    os.makedirs(jtmp, exist_ok=True)
+    env['JAVA_TOOL_OPTIONS'] = (env.get('JAVA_TOOL_OPTIONS', '') + ' -Xss512m -Xmx3g -Djava.io.tmpdir=' + jtmp).strip()
     env['VERIF_TRACE'] = trace
     cmd = ['timeout', '3000', 'tlc', '-workers', '1', '-metadir', md, '-config', cfgp, '-nowarning', os.path.join(d, module + '.tla')]
     t = time.time()
